@@ -157,7 +157,7 @@ func fillValidCharsByRangeExpression(table []bool, expression string) error {
 			}
 		} else {
 			if rangeStarted {
-				for rc := expr[i-2]; rc <= c; rc++ {
+				for rc := int(expr[i-2]); rc <= int(c); rc++ { // int: a byte counter would wrap around for c == 0xFF
 					table[rc] = listedValue
 				}
 				rangeStarted = false
